@@ -7,7 +7,7 @@
 const char *keykind_name(int k) {
     switch (k) {
     case KK_NONE: return "none"; case KK_RSA2048: return "rsa2048"; case KK_EC256: return "ec256"; case KK_EC384: return "ec384";
-    case KK_ECDH_RSA: return "ecdh_rsa"; case KK_ED25519: return "ed25519"; case KK_RSA1024: return "rsa1024"; case KK_EC521: return "ec521";
+    case KK_ECDH_RSA: return "ecdh_rsa"; case KK_ED25519: return "ed25519"; case KK_RSA1024: return "rsa1024"; case KK_EC521: return "ec521"; case KK_EC384_SHA384: return "ec384_sha384";
     case KK_PSK_ONLY: return "psk";
     }
     return "?";
@@ -28,7 +28,7 @@ sslKeys_t *load_keys(const KeySpec &ks, int *rc_out) {
     int rc = matrixSslNewKeys(&keys, nullptr);
     if (rc < 0) { if (rc_out) { *rc_out = rc; } return nullptr; }
     Bytes cas;
-    for (int k = 1; k <= KK_EC521; k++) {
+    for (int k = 1; k <= KK_EC384_SHA384; k++) {
         if (ks.ca_mask & (1u << k)) { KeyMat m; if (keymat(k, m)) { cas.insert(cas.end(), m.ca, m.ca + m.caLen); } }
     }
     KeyMat id; bool have_id = keymat(ks.identity, id);
